@@ -474,13 +474,10 @@ def run(res, tier, seed, proof):
         r2 = random.Random(rnd.getrandbits(64))
         s = sg.random_schema(r2, n_modules=r2.randint(1, 3))
         cases.append((s, "c" if r2.random() < 0.1 else "-", ["random"]))
-    orders = []
-    for s, _, _ in cases:
-        names = [m["name"] for m in s]
-        rnd.shuffle(names)
-        orders.append(names)
     go_lines = [sg.go_case(s, opts=o) for (s, o, _) in cases]
-    ml_lines = [sg.model_case(s, order=od, opts=o) for (s, o, _), od in zip(cases, orders)]
+    # the model visits the modules in the order the implementation does (sorted names, modules before submodules:
+    # schema_gen.model_case's default); the theorems quantify over all orders
+    ml_lines = [sg.model_case(s, opts=o) for (s, o, _) in cases]
     go = run_go(go_lines)
     ml = lib.run_ml(ml_lines)
     stats = dict(composed=n_comp, random=n_rand, ok=0, err=0, loaderr=0, features={}, clean_by_feature={}, max_depth=0,
@@ -561,8 +558,8 @@ def run(res, tier, seed, proof):
              "in rpc input via uses, each nested 2..3 levels deep; 45% of the sets add 1..2 late conflicts (two augments one "
              "name in one/two modules, augment vs uses, augment into leaf / nothing, seven kinds of deviation error, duplicate "
              "via uses, unknown type in rpc input/output/action in grouping, case added next to a same-named shorthand member, "
-             "submodule duplicate, not-supported on rpc input, unknown deviate kind); plus schema_gen.random_schema sets; the "
-             "model visits modules in a shuffled order; non-trivial = every case the parser accepted",
+             "submodule duplicate, not-supported on rpc input, unknown deviate kind); plus schema_gen.random_schema sets; "
+             "non-trivial = every case the parser accepted",
         exhaustive=False, mismatches=viol[0], distribution=stats,
         samples=[go_lines[0][:300], go_lines[n_comp][:300]],
         sample_observations=[go[0][:300], go[n_comp][:300]],
@@ -572,8 +569,8 @@ def run(res, tier, seed, proof):
         "'points back to its parent' and 'reachable by exactly one path / no node object shared' are checked on the "
         "implementation by the pointer-level walker of harness/go/resolve.go (treeviol) -- testing, not proof",
         "types are builtin names or unknown names (typedef resolution: C09); errors are compared by presence only",
-        "Go map iteration order is the `order` argument of the model's Process; the check passes a shuffled order, the "
-        "theorems quantify over all orders",
+        "the order in which Process visits modules is the `order` argument of the model's Process; the check passes the "
+        "implementation's order (sorted names), the theorems quantify over all orders",
     ]
     return cov, assumptions
 
@@ -593,6 +590,6 @@ def replay(rep, res):
     if j is not None and st == "ok":
         for md in j["runs"][-1]["modules"]:
             walk_flags(md["tree"], bad)
-        bad += j["runs"][-1]["treeviol"]
+        bad += j["runs"][-1]["treeviol"] or []
     same = (canon if st == "ok" else st) == m
     return 0 if same and not bad else 1
